@@ -136,7 +136,21 @@ func fieldsAssigned(fn *ssa.Function, isObj func(v ssa.Value) bool, st *types.St
 				return
 			}
 			got[fieldName(fa)] = true
+			// a struct-typed field assigned as a whole (`ctx.flags = flags{}`): its own fields are assigned with it —
+			// they are the object's fields when the struct is embedded
+			if sub := structOfPtr(fa.Type()); sub != nil {
+				for i := 0; i < sub.NumFields(); i++ {
+					got[sub.Field(i).Name()] = true
+				}
+			}
 			return
+		}
+		// a field of a struct nested in the object: obj.flags.loopBreak = …
+		if fa, ok := s.Addr.(*ssa.FieldAddr); ok {
+			if outer, ok := fa.X.(*ssa.FieldAddr); ok && isObj(outer.X) && !isObj(rootOf(s.Val)) {
+				got[fieldName(fa)] = true
+				return
+			}
 		}
 		if isObj(s.Addr) && st != nil { // whole-struct store: *obj = T{…}
 			kept := map[string]bool{}
@@ -338,7 +352,7 @@ func checkC15(c *Ctx) {
 				fmt.Sprintf("assigned by acquire(%s)=%v, by every init(%s)=%v, cleared by release(%s)=%v — a field that is none of these keeps the value a previous, unrelated use left in the pooled object", names(acquire), acq[fn], names(inits), inAllInits, names(release), rel[fn]))
 		}
 	}
-	r.Floor("RESET-COMPLETE", 28)
+	r.Floor("RESET-COMPLETE", 24)
 	emptyProductions(c, "RESET-COMPLETE")
 
 	// (2) acquire/release pairing for tasks and parsers
